@@ -119,7 +119,7 @@ class Ctx:
         raise Violation(signature, detail, case)
 
     def add_violation(self, v):
-        d = os.path.join(VERIF_DIR, "replay", self.prop)
+        d = os.path.join(os.environ.get("VERIF_REPLAY_DIR") or os.path.join(VERIF_DIR, "replay"), self.prop)
         os.makedirs(d, exist_ok=True)
         sig = "".join(c if c.isalnum() or c in "-_" else "_" for c in v.signature)[:60]
         path = os.path.join(d, "%s-%s.json" % (sig, jhash(v.case)))
@@ -311,9 +311,9 @@ def main(modname, tier, seed, nshards=None, time_budget=None):
     base = os.path.join(os.environ.get("VERIF_TMP", "/var/tmp"), "verif-%s-%d" % (mod.PROP, os.getpid()))
     shutil.rmtree(base, ignore_errors=True)
     os.makedirs(base)
-    evpath = os.path.join(VERIF_DIR, "evidence", mod.PROP + ".json")
+    evpath = os.path.join(os.environ.get("VERIF_EVIDENCE_DIR") or os.path.join(VERIF_DIR, "evidence"), mod.PROP + ".json")
     os.makedirs(os.path.dirname(evpath), exist_ok=True)
-    shutil.rmtree(os.path.join(VERIF_DIR, "replay", mod.PROP), ignore_errors=True)
+    shutil.rmtree(os.path.join(os.environ.get("VERIF_REPLAY_DIR") or os.path.join(VERIF_DIR, "replay"), mod.PROP), ignore_errors=True)
     try:
         lines, viols, ncorpus = run_corpus(mod, tier, seed, base)
         for l in lines:
